@@ -66,6 +66,7 @@ func Gen(t *rapid.T) Plan {
 	p := Plan{}
 	n := rapid.IntRange(1, 12).Draw(t, "nsteps")
 	runAt := rapid.IntRange(0, n).Draw(t, "runat")
+	history := map[int][][]sim.InSpec{}
 
 	for i := 0; i < n; i++ {
 		if i == runAt {
@@ -73,7 +74,16 @@ func Gen(t *rapid.T) Plan {
 		}
 
 		if i > runAt && rapid.IntRange(0, 3).Draw(t, "isupdate") == 0 {
-			p.Steps = append(p.Steps, Step{K: "update", Name: rapid.IntRange(0, 3).Draw(t, "uname"), Ins: genIns(t, "uins")})
+			st := Step{K: "update", Name: rapid.IntRange(0, 3).Draw(t, "uname"), Ins: genIns(t, "uins")}
+
+			// a third of the updates go back to an input set the controller has asked for before (its registration
+			// or an earlier update), e.g. to the last accepted set right after a rejected update
+			if h := history[st.Name]; len(h) > 0 && rapid.IntRange(0, 2).Draw(t, "revert") == 0 {
+				st.Ins = append([]sim.InSpec{}, h[rapid.IntRange(0, len(h)-1).Draw(t, "revertto")]...)
+			}
+
+			history[st.Name] = append(history[st.Name], st.Ins)
+			p.Steps = append(p.Steps, st)
 
 			continue
 		}
@@ -100,6 +110,7 @@ func Gen(t *rapid.T) Plan {
 			return sim.OutSpec{Typ: rapid.SampledFrom([]string{"TA", "TB", "TC"}).Draw(t, "otyp"), Kind: rapid.IntRange(0, 1).Draw(t, "okind")}
 		}), 0, 2).Draw(t, "outs")
 
+		history[r.Name] = append(history[r.Name], r.Ins)
 		p.Steps = append(p.Steps, Step{K: "reg", Reg: r})
 	}
 
